@@ -84,6 +84,30 @@ fn main() {
                 }
             }
         }
+        Some("accept") => {
+            // ndjson in ({"text": module}) -> ndjson out: does the asn_to_rust! front end (parse, resolve, to_rust, generator) accept it?
+            use asn1rs_model::generate::rust::RustCodeGenerator;
+            use asn1rs_model::generate::Generator;
+            use asn1rs_model::parse::Tokenizer;
+            use asn1rs_model::Model;
+            let mut out = vharness::util::Out::create(&args[3]);
+            for (_i, c) in vharness::util::read_lines(&args[2]) {
+                let text = c["text"].as_str().unwrap_or("").to_string();
+                let r = vharness::util::guarded(|| -> Result<String, String> {
+                    let model = Model::try_from(Tokenizer.parse(&text))
+                        .map_err(|e| format!("parse: {}", format!("{}", e).lines().next().unwrap_or("").to_string()))?
+                        .try_resolve()
+                        .map_err(|e| format!("resolve: {}", format!("{}", e).lines().next().unwrap_or("").to_string()))?;
+                    let files = RustCodeGenerator::from(model.to_rust()).to_string().map_err(|_| "generator failed".to_string())?;
+                    Ok(files.into_iter().map(|(_f, c)| c).collect::<Vec<_>>().join("\n"))
+                });
+                match r {
+                    Err(p) => out.line(&json!({"accepted": false, "error": format!("panic: {}", p)})),
+                    Ok(Err(e)) => out.line(&json!({"accepted": false, "error": e})),
+                    Ok(Ok(code)) => out.line(&json!({"accepted": true, "code": code})),
+                }
+            }
+        }
         _ => {
             eprintln!("usage: frontend pipeline|canon <files>");
             std::process::exit(2);
